@@ -50,6 +50,13 @@ CHECKS["C05"] = dict(
          "low byte first; LAHF/SAHF; XLAT address form. Interleaved push/pop histories follow by induction and are not re-checked.",
     design="DESIGN.md §6 C05")
 
+CHECKS["C06"] = dict(
+    technique="abstract interpretation of MIR with trace partitioning over the flag bits and three CX classes -> complete truth tables; bit domain for flag accessors; affine CX update; grammar/AST composition with the assembler's spelling table",
+    text="Decided completely (finite): the truth table of every interpreter jump/loop predicate (32 flag rows x 3 CX classes) equals the Intel predicate; "
+         "FLAG_* positions and get/set/unset_flag exactness; LOOPx decrement CX mod 2^16, JCXZ leaves CX; no flag/register change; every one of the "
+         "assembler's source spellings (both cases, synonyms) reaches the Intel predicate of that spelling; taken => JMP(label.map), else NEXT.",
+    design="DESIGN.md §6 C06")
+
 NOT_YET = {}
 
 
